@@ -106,7 +106,7 @@ impl LZ13CompressionFormat {
         let mut result: Vec<u8> = Vec::new();
         let length = bytes.len();
         let lz13_length = calculate_lz13_header(bytes)?;
-        result.reserve(9 + length + ((length - 1) >> 3)); // For performance, reserve space to avoid resizing.
+        result.reserve(9 + length + (length.saturating_sub(1) >> 3)); // For performance, reserve space to avoid resizing.
         result.push(0x13);
         result.push((lz13_length & 0xFF) as u8);
         result.push(((lz13_length >> 8) & 0xFF) as u8);
